@@ -101,6 +101,7 @@ fn reader_side(tier: Tier, seed: u64, l: &mut Local) {
         let res: Vec<Local> = (0..open_calls.len())
             .into_par_iter()
             .map(|k| {
+                let init_r = f.init.as_ref().map(|i| open(i).unwrap());
                 let mut l = Local::default();
                 for d in faults_for(open_calls[k].0) {
                     let ctl = Ctl::new();
@@ -148,6 +149,7 @@ fn reader_side(tier: Tier, seed: u64, l: &mut Local) {
         let res: Vec<Local> = ids
             .par_iter()
             .map(|&(tid, sid)| {
+                let init_r = f.init.as_ref().map(|i| open(i).unwrap());
                 let mut l = Local::default();
                 // clean
                 let ctl = Ctl::new();
@@ -193,6 +195,7 @@ fn reader_side(tier: Tier, seed: u64, l: &mut Local) {
 
         // (3) transparency: single deviations everywhere (open + whole call suite), pairs on selected files, two extreme schedules
         let judge = |plan: Vec<(u64, Dev)>, one_byte: bool, intr: bool, l: &mut Local| -> u64 {
+            let init_r = f.init.as_ref().map(|i| open(i).unwrap());
             let ctl = Ctl::new();
             *ctl.plan.borrow_mut() = plan.clone();
             ctl.one_byte_everywhere.set(one_byte);
